@@ -1,6 +1,6 @@
 #!/usr/bin/env python3
 """usage: tools/neutral_matrix.py [-j N] [w1/3/2 ...] — apply each behaviour-preserving patch kept under /verif/neutral
-(seven waves written by sub-agents acting as maintainers; the .md beside each patch is its equivalence argument) to a scratch
+(eight waves written by sub-agents acting as maintainers; the .md beside each patch is its equivalence argument) to a scratch
 copy of /repo's working tree and run every quick check against the copy.  Every patch must come out `CAUGHT-BY: -`: a check
 that reports one of them raises a false alarm.  Patches that no longer apply (the code they touch was repaired since) are
 skipped.  /repo itself is not touched."""
